@@ -73,6 +73,7 @@ def install():
     import crosshair.core_and_libs  # noqa: F401  (registers library models)
     from crosshair.tracers import NoTracing
 
+    from crosshair.util import CrossHairValue
     # --- %s shim -------------------------------------------------------------------
     orig_mod = core._PATCH_REGISTRATIONS.get(str.__mod__)
 
@@ -95,6 +96,11 @@ def install():
                             out = out + str(next(it))
                     return out
         with NoTracing():
+            args = other if type(other) is tuple else (other,)
+            if type(self) is str and not any(isinstance(a, CrossHairValue) for a in args):
+                # concrete format string, no symbolic argument at top level (e.g. an opaque symbolic
+                # *term* whose repr is constant): format natively, realise nothing
+                return str.__mod__(self, other)
             return str.__mod__(core.deep_realize(self), core.deep_realize(other))
 
     core._PATCH_REGISTRATIONS[str.__mod__] = _pct
